@@ -19,19 +19,23 @@ def run(ck, tier, seed):
     # spec -> code: synthesise the cmap bytes of every configuration
     cases = os.path.join(tmp, "cases.ndjson")
     step = 5 if tier == "quick" else 1
-    variants = [((3, 1), (3, 10)), ((0, 3), (0, 4)), ((0, 0), (3, 10))]
+    # (BMP record, supplementary record, records of lower preference holding other content: the order of preference is
+    # (3,1) (0,3) (0,2) (0,1) (0,0) and (3,10) (0,4), whatever the order of the records in the table)
+    variants = [((3, 1), (3, 10), ()), ((0, 3), (0, 4), ()), ((0, 0), (3, 10), ()),
+                ((0, 3), (0, 4), ((0, 0, 4),)), ((0, 3), (3, 10), ((0, 1, 6), (0, 2, 4))),
+                ((3, 1), (3, 10), ((0, 3, 4), (0, 4, 12))), ((0, 2), (3, 10), ((0, 0, 4), (0, 1, 4), (0, 4, 12)))]
     n = 0
     with open(cases, "w") as fo:
         for k, c in enumerate(r.emitted):
             if (k + seed) % step:
                 continue
-            bmp, smp = variants[k % len(variants)]
+            bmp, smp, decoys = variants[k % len(variants)]
             c["id"] = "cfg%d" % k
-            c["cmap_hex"] = cm.from_case(c, bmp, smp).hex()
+            c["cmap_hex"] = cm.from_case(c, bmp, smp, decoys).hex()
             fo.write(json.dumps(c) + "\n")
             n += 1
             if n in (7, 500, 1200):
-                ck.sample({"module": "Cmap", "segs": c["segs"], "groups": c["groups"], "records": [bmp, smp]})
+                ck.sample({"module": "Cmap", "segs": c["segs"], "groups": c["groups"], "records": [bmp, smp], "losing_records": list(decoys)})
     host = os.path.join(vlib.REPO, "tests/fonts/Padauk.ttf")
     exe = vlib.build_harness("san")
     h = vlib.run_harness(exe, ["cmap", cases, host, 4099 if tier == "quick" else 257], timeout=6000)
